@@ -99,6 +99,8 @@ def call(fn: Callable, *args, **kwargs):
             if marker in fr.filename and os.sep + "verif" + os.sep not in fr.filename:
                 frame = f"{os.path.basename(fr.filename)}:{fr.name}"
                 innermost_in_jaxley = i == len(tb) - 1
+        if frame == "?":
+            raise  # no jaxley frame at all: a bug of the harness, not of the code under test
         return None, SutError(
             type(e).__name__,
             str(e).replace("\n", " ")[:400],
